@@ -52,6 +52,18 @@ STRESS = [
     "std.base64(std.map(function(i) i % 256, std.range(1, 2000))) != ''",
     "std.deepJoin([[std.toString(i), [std.toString(i * 2)]] for i in std.range(1, 300)]) != ''",
     "std.trace(std.toString([i for i in std.range(1, 50)]), std.length(std.range(1, 1000)))",
+    # thunks of every kind that are created but never forced before their owner becomes garbage
+    "std.length([{a+: [i], b+: {c: i}} for i in std.range(1, 60)])",
+    "std.objectFields({a: 1, b: [2]} + {a+: 2, b+: [3], c+: error 'never forced'})",
+    "local o = {x+: error 'never', y+: self.x}; [std.objectHas(o, 'x'), std.length(o)]",
+    "std.length(std.objectFields(std.mapWithKey(function(k, v) v, {a: 1} + {a+: 2, b+: 3})))",
+    "std.objectFields(std.mergePatch({a: {b+: 1}}, {a: {c: 2}}))",
+    "std.length(std.map(function(x) {v+: x}, std.range(1, 100)))",
+    "std.length(std.makeArray(100, function(i) {v+: i} + {v+: 1}))",
+    "std.length([function(x) x + i for i in std.range(1, 100)])",
+    "local f(a, b={x+: a}) = a; [f(i) for i in std.range(1, 50)][49]",
+    "std.length({[k]+: 1 for k in ['a', 'b', 'c']} + {a+: 2})",
+    "local o = {a+: 1} + {a+: error 'unforced'}; std.objectHasAll(o, 'a')",
     # errors raised deep inside (stack trace must be identical)
     "local f(n) = if n == 0 then error 'bottom' else [f(n - 1)][0]; f(100)",
     "local o = {a: [{b: error 'deep field'}]}; std.manifestJsonEx(o, ' ')",
